@@ -335,6 +335,12 @@ func (v *vdrRun) buildChecks() {
 	for k, n := range enc.stats {
 		v.res.Hist["build-exp-"+k] += n
 	}
+	// no two forks of a node share a bookkeeping map (each fork prunes its own)
+	for _, sh := range v.r.ps.VerifForksShareTables() {
+		v.violate("C04", "correspondence", "C04:model:forks-share-tables",
+			"forks share a bookkeeping map (the model gives every fork its own copy of the constructed tables): "+sh, nil)
+	}
+	v.hist("forks-share-tables-probed")
 	// cloneFork on the real forks
 	for _, n := range names {
 		if perNode[n] == ".|." {
@@ -414,6 +420,9 @@ func (v *vdrRun) valueChecks(s *vdrSnapshot) {
 		}
 		sort.Strings(keys)
 		for _, k := range keys {
+			if len(m[k]) > 1<<16 {
+				continue
+			}
 			var val interface{}
 			if json.Unmarshal(m[k], &val) != nil {
 				continue
@@ -464,6 +473,10 @@ func (v *vdrRun) checkNewForks() {
 			continue
 		}
 		v.hist("dynamic-fork-first-seen")
+		for _, sh := range v.r.ps.VerifForksShareTables() {
+			v.violate("C04", "correspondence", "C04:model:forks-share-tables",
+				"after dynamic fork expansion forks share a bookkeeping map: "+sh, nil)
+		}
 		if got, want := vdrTablesOf(f), vdrTablesOf(&init); got != want {
 			v.violate("C04", "correspondence", "C04:model:clone-moment",
 				fmt.Sprintf("fork %s, made by dynamic fork expansion, does not start with the bookkeeping its node was built with: %s, built %s", f.Fqname, got, want),
@@ -544,7 +557,7 @@ func (v *vdrRun) deliveryCheck(job *TAJob) {
 	sort.Strings(params)
 	for _, k := range params {
 		raw, ok := args[k]
-		if !ok || !strings.Contains(string(raw), "/") {
+		if !ok || len(raw) > 1<<16 || !strings.Contains(string(raw), "/") {
 			continue
 		}
 		var val interface{}
